@@ -37,3 +37,16 @@ Example C04_example :
   pm (lit "{a{b,c},d}-1.0") (lit "ad-1.0") = MBool false /\
   pm (lit "{a,b}}") (lit "a") = MErr EAlternate.
 Proof. vm_compute. repeat split. Qed.
+
+(* The implementation expands with an explicit work list (since the repair of
+   the stack overflow on very many groups): that loop, transcribed as alt_work /
+   pm_w, gives the answer of the recursive description for every pattern and
+   name once it is allowed enough iterations, and more never change it. *)
+Theorem C04_worklist_refines : forall p pkg, exists k, forall f, pm_w (k + f) p pkg = pm p pkg.
+Proof. exact worklist_refines. Qed.
+Example C04_example_worklist :
+  pm_w 50 (lit "{a{b,c},d}-[0-9]*") (lit "ac-1.0") = MBool true /\
+  pm_w 50 (lit "{a{b,c},d}-[0-9]*") (lit "ad-1.0") = MBool false /\
+  pm_w 50 (lit "{}{}{}x-1") (lit "x-1") = MBool true /\
+  pm_w 2 (lit "{}{}{}x-1") (lit "x-1") = MFuel.
+Proof. vm_compute. repeat split. Qed.
